@@ -9,14 +9,15 @@ step) compared with the Lean driver.
 Direct oracle: independent Python reference semantics (insertion-ordered set, id-keyed set,
 dict merge, LRU recency bookkeeping) checked after every step on the real objects.
 """
+import json
 import types
 
 PID = "C54"
 LEVEL = "proof"
-LEAN = ["SaVerif.Props.C54"]
+LEAN = ["SaVerif.Props.C54", "SaVerif.Props.C54MT"]
 META = {
-    "text": "Lean theorems, all for arbitrary operation sequences / arbitrary arguments: OrderedSet — the representation invariant (_list duplicate-free and equal as a set to the builtin-set part) is preserved by every method over any number of live sets with arguments of every kind (orderedset_inv), the iteration order of every live set after any history equals the insertion-ordered-set reference run (orderedset_refines_reference), every method's iteration order equals the insertion-ordered-set reference (survivors keep their order, new elements by first occurrence: *_spec, orderedset_order_is_first_insertion) and results are the mathematical set operations (*_mem); IdentitySet — no id held twice after any sequence, each operation is the set operation on ids, comparisons decide the set relations, order is first insertion; immutabledict — union/merge_with contents and key order equal the plain left-to-right merge whichever object (self / an argument / a fresh dict) is returned, lookup gives the last defining argument; LRUCache — one entry per key and unique counters after any history, size <= capacity*(1+threshold) after every __setitem__, the _manage_size loop terminates after one pass, evicted entries are strictly older than retained ones, the key just set survives, get/[] return only the value most recently stored under that key. The four models are hand transcriptions tied to the pure-Python source by differential runs (random operation sequences plus exhaustive small scope, every live object observed after every step) and an independent Python reference oracle checks the property itself on the real objects.",
-    "note": "Trusted / modelled-not-verified: Lean kernel; builtin set/dict/list semantics (modelled as lists, validated by the correspondence); stdlib MutableMapping mixins used by LRUCache; the correspondence harness (differential). LRUCache threshold restricted to non-negative dyadic rationals, single-threaded (mutex always acquired, re-entrant size_alert not modelled). No _partial theorems: F9 (symmetric_difference_update duplicates) and F18 (IdentitySet.__ixor__ no-op) are fixed in /repo; symdiff_update_nodedup_counterexample proves the pre-fix variant violates the invariant.",
+    "text": "Lean theorems, all for arbitrary operation sequences / arbitrary arguments: OrderedSet — the representation invariant (_list duplicate-free and equal as a set to the builtin-set part) is preserved by every method over any number of live sets with arguments of every kind (orderedset_inv), the iteration order of every live set after any history equals the insertion-ordered-set reference run (orderedset_refines_reference), every method's iteration order equals the insertion-ordered-set reference (survivors keep their order, new elements by first occurrence: *_spec, orderedset_order_is_first_insertion) and results are the mathematical set operations (*_mem); IdentitySet — no id held twice after any sequence, each operation is the set operation on ids, comparisons decide the set relations, order is first insertion; immutabledict — union/merge_with contents and key order equal the plain left-to-right merge whichever object (self / an argument / a fresh dict) is returned, lookup gives the last defining argument; LRUCache — one entry per key and unique counters after any history, size <= capacity*(1+threshold) after every __setitem__, the _manage_size loop terminates after one pass, evicted entries are strictly older than retained ones, the key just set survives, get/[] return only the value most recently stored under that key; under threads (Props/C54MT, a transition system with one atomic shared access per step, any number of threads, no fairness) every interleaving satisfies: get returns only values stored under the requested key, the try-lock section is mutually exclusive, and len - (threads owing a prune + failed try-locks) <= capacity*(1+threshold) — the sequential bound itself is proved NOT to be an invariant under threads (lru_mt_size_bound_is_tight). The four models are hand transcriptions tied to the pure-Python source by differential runs (random operation sequences plus exhaustive small scope, every live object observed after every step) and an independent Python reference oracle checks the property itself on the real objects.",
+    "note": "Trusted / modelled-not-verified: Lean kernel; builtin set/dict/list semantics (modelled as lists, validated by the correspondence); stdlib MutableMapping mixins used by LRUCache; the correspondence harness (differential). LRUCache threshold restricted to non-negative dyadic rationals; re-entrant size_alert not modelled; the threaded model trusts that sorted(dict.values()) is atomic under the GIL and is tied to the code by running small thread programs under the cooperative scheduler (line-granularity switches) and checking that every observed outcome is in the model's exhaustively explored reachable set. No _partial theorems: F9 (symmetric_difference_update duplicates) and F18 (IdentitySet.__ixor__ no-op) are fixed in /repo; symdiff_update_nodedup_counterexample proves the pre-fix variant violates the invariant.",
     "technique": "Lean 4 invariant/refinement proofs by induction over operation sequences + differential correspondence with the Python implementation + reference-semantics oracle",
     "design_ref": "DESIGN.md §3 C54",
 }
@@ -51,7 +52,7 @@ def run(ctx, deep=False):
     ctx.trusted.append("builtin set/dict/list semantics (modelled as lists in Lean; validated by this correspondence)")
     ctx.trusted.append("stdlib MutableMapping mixins (setdefault/pop/popitem/clear/__contains__) transcribed from _collections_abc")
     ctx.assumptions.append("LRUCache threshold restricted to non-negative dyadic rationals (capacity*threshold exact in binary floating point)")
-    ctx.assumptions.append("LRUCache single-threaded: _mutex.acquire(False) always succeeds; re-entrant size_alert callbacks not modelled")
+    ctx.assumptions.append("sequential LRUCache model: re-entrant size_alert callbacks not modelled; threaded model (LruMT): sorted(dict.values()) atomic under the GIL, get/__setitem__ only")
 
     # ------------------------------------------------------------ OrderedSet
     cases, impl_out, reqs = [], [], []
@@ -183,6 +184,41 @@ def run(ctx, deep=False):
             ctx.sample({"lru_cfg": cfg, "lru_ops": ops, "trace": trace})
     if ctx.driver_ok():
         ctx.correspond("corr/c54:LRUCache-vs-Model.Lru", cases, impl_out, ctx.driver(reqs))
+    # ------------------------------------------------------------ LRUCache under threads
+    # real cache, one greenlet per thread, cooperative scheduler (switch before every source line of
+    # util/_collections.py and at the mutex); the Lean driver explores EVERY interleaving of the same
+    # programs at a finer grain and must contain the observed outcome
+    cases, impl_out, reqs = [], [], []
+    seen_req = set()
+    directed = L.lrumt_directed()
+    for i in range((500 if thorough else 60) + len(directed)):
+        cfg, progs = directed[i] if i < len(directed) else L.lrumt_gen(ctx.rng)
+        for j in range((200 if thorough else 40) if i < len(directed) else (10 if thorough else 6)):
+            if ctx.rng.random() < 0.7:
+                strat = ["rand", ctx.rng.randrange(1 << 30), ctx.rng.choice([0.1, 0.3, 0.6])]
+            else:
+                strat = ["pct", ctx.rng.randrange(1 << 30), ctx.rng.choice([2, 3, 4])]
+            r = L.lrumt_run(ns, cfg, progs, strat)
+            case = {"kind": "lrumt", "cfg": cfg, "progs": progs, "choices": r["choices"]}
+            ctx.case(json.dumps([cfg, progs, strat]), nontrivial=len(progs) > 1)
+            ctx.count("lrumt.threads=%d" % len(progs))
+            ctx.count("lrumt.failed-trylocks=%d" % min(r["failed"], 3))
+            if r["oracle"]:
+                ctx.violation(r["oracle"][0], case, r["oracle"][1])
+                continue
+            req = L.lrumt_request(cfg, progs, r["rets"], r["data"])
+            if req not in seen_req:
+                seen_req.add(req)
+                cases.append(case)
+                impl_out.append("yes")
+                reqs.append(req)
+            if i == 0 and j == 0:
+                ctx.sample({"lrumt": case, "rets": r["rets"], "data": r["data"], "failed_trylocks": r["failed"]})
+    ctx.count("lrumt.distinct-outcomes", len(reqs))
+    if ctx.driver_ok():
+        ctx.correspond("corr/c54:LRUCache-threads-outcome-in-Model.LruMT-reachable-set", cases, impl_out,
+                       [m.split(" ")[0] for m in ctx.driver(reqs)])
+
     # ------------------------------------------------------------ small helpers (oracle only)
     for key, case, detail in L.misc_helper_checks(ctx.rng, 1500 if thorough else 300):
         ctx.violation(key, case, detail)
@@ -191,6 +227,11 @@ def run(ctx, deep=False):
 
 
 def search(ctx, broken):
+    # an observed multi-threaded outcome that no interleaving of the transcribed code can produce is
+    # a concrete failing run (the schedule is replayable)
+    for d in ctx.disagreements:
+        if d["corr"].startswith("corr/c54:LRUCache-threads"):
+            ctx.violation("lrucache-threads-outcome-outside-model", d["case"], "observed outcome is not reachable in Model.LruMT")
     sub = type(ctx)(ctx.pid, "thorough", ctx.seed + 1, ctx.level)
     run(sub, deep=True)
     ctx.violations.extend(sub.violations)
@@ -220,6 +261,12 @@ def replay(ctx, obj):
     elif kind == "idset-foreign":
         fails = L.is_foreign_checks(ns)
         trace, req, fail = [], [], (fails[0] if fails else None)
+    elif kind == "lrumt":
+        r = L.lrumt_run(ns, c["cfg"], c["progs"], ["replay", c["choices"]])
+        req = L.lrumt_request(c["cfg"], c["progs"], r["rets"], r["data"])
+        verdict = ctx.driver([req])[0] if ctx.driver_ok() else "?"
+        trace, req = ["rets=%s data=%s failed=%d model:%s" % (r["rets"], r["data"], r["failed"], verdict)], [req]
+        fail = r["oracle"] or (("lrucache-threads-outcome-outside-model", verdict) if verdict.startswith("no") else None)
     elif kind == "misc":
         import random
 
